@@ -509,7 +509,10 @@ func objCells(c *Cell, fe func(*Cell), by func(*Cell)) {
 	}
 }
 
+type fpanicLeaf struct{}
+
 type frunRes struct {
+	panicked  bool
 	ops       []FOp
 	nin       int
 	inKinds   []string
@@ -591,8 +594,25 @@ func frun(prog *ssa.Program, pkg *ssa.Package, globals map[*ssa.Global]*Cell, t 
 	if len(fl.ops) != 0 {
 		fail("internal: ops emitted before inputs were numbered")
 	}
-	ret := in.call(fn, args, nil)
+	var ret Value
+	func() {
+		defer func() {
+			if e := recover(); e != nil {
+				if _, ok := e.(fpanicLeaf); ok {
+					res.panicked = true
+					return
+				}
+				panic(e)
+			}
+		}()
+		ret = in.call(fn, args, nil)
+	}()
 	res.ok = true
+	if res.panicked {
+		// the function panics on this path: a leaf that returns the empty output list
+		res.ops, res.nin, res.inKinds, res.decisions = fl.ops, fl.nin, fl.inKinds, fl.decisions
+		return
+	}
 	var retOuts []int
 	rs := fn.Signature.Results()
 	var walk func(v Value, ty types.Type)
